@@ -287,8 +287,12 @@ func c08RMW(c *Ctx) {
 		if notebook != nil && v == notebook {
 			return true
 		}
-		// the decoded list kept in a plain variable: a merge of the list itself
-		// and append(list, entry)
+		// the decoded list kept in a plain variable: append(list, entry) ...
+		if ap, ok := v.(*ssa.Call); ok && notebook != nil && ssau.CallName(ap) == "builtin.append" && ap.Common().Args[0] == notebook {
+			el := appendedSingle(ap)
+			return el != nil && (el == ssa.Value(entry) || paramCellLoad(el, entry))
+		}
+		// ... or a merge of the list itself and append(list, entry)
 		if phi, ok := v.(*ssa.Phi); ok && notebook != nil {
 			for _, e := range phi.Edges {
 				if e == notebook {
